@@ -58,3 +58,28 @@ pub fn with_owner<T>(f: impl FnOnce() -> T) -> T {
     poll();
     r
 }
+
+use crate::i18n::{use_i18n, I18nSubContextProvider, Locale};
+use leptos_i18n::context::{CookieOptions, UseLocalesOptions};
+use leptos_i18n::I18nContext;
+use std::sync::{Arc, Mutex};
+
+/// A sub-context created the way an application does it: through the generated `<I18nSubContextProvider>`
+/// component, in the *current* owner. Returns the view (keep it: it owns the provider's owner) and, taken
+/// from inside the provider's children with `use_i18n()`, the sub-context and the owner it lives in.
+pub fn provider_sub(initial: Option<Signal<Locale>>, cookie_name: Option<&'static str>, co: CookieOptions<Locale>, lo: UseLocalesOptions) -> (AnyView, I18nContext<Locale>, Owner) {
+    let cell: Arc<Mutex<Option<(I18nContext<Locale>, Owner)>>> = Arc::new(Mutex::new(None));
+    let c2 = cell.clone();
+    let grab = move || {
+        *c2.lock().unwrap() = Some((use_i18n(), Owner::current().expect("owner inside the provider")));
+        "x"
+    };
+    let v = match (initial, cookie_name) {
+        (Some(i), Some(n)) => view! { <I18nSubContextProvider initial_locale=i cookie_name=n cookie_options=co ssr_lang_header_getter=lo>{grab()}</I18nSubContextProvider> }.into_any(),
+        (Some(i), None) => view! { <I18nSubContextProvider initial_locale=i cookie_options=co ssr_lang_header_getter=lo>{grab()}</I18nSubContextProvider> }.into_any(),
+        (None, Some(n)) => view! { <I18nSubContextProvider cookie_name=n cookie_options=co ssr_lang_header_getter=lo>{grab()}</I18nSubContextProvider> }.into_any(),
+        (None, None) => view! { <I18nSubContextProvider cookie_options=co ssr_lang_header_getter=lo>{grab()}</I18nSubContextProvider> }.into_any(),
+    };
+    let (ctx, owner) = cell.lock().unwrap().take().expect("the provider ran its children");
+    (v, ctx, owner)
+}
